@@ -6488,6 +6488,7 @@ class SFTPServerHandler(SFTPHandler):
                 raise SFTPInvalidParameter('Invalid check value') from None
         else:
             check = FXRP_NO_CHECK
+            packet.check_end()
 
         self.logger.debug1('Received realpath for %s%s%s', path,
                            b', compose_path: ' + b', '.join(compose_paths)
